@@ -1054,7 +1054,7 @@ pub trait GarnishData: Sized {
     spec fn num_zero() -> Self::Number;
     /// the window [lo, hi) of a sequence of length `len` that an Extents value selects (the data object's own clamping)
     spec fn ext_sel(len: nat, e: Extents<Self::Number>) -> (int, int);
-    /// the flat item sequence a concatenation denotes (lists contribute their items, other values themselves)
+    /// the flat item sequence a concatenation denotes (lists contribute their items, other values themselves); tied to `walk` in axioms()
     spec fn concat_flat(cells: Map<Self::Size, Cell<Self::Size, Self::Number, Self::Symbol, Self::Char, Self::Byte>>, addr: Self::Size) -> Seq<Self::Size>;
     spec fn num_one() -> Self::Number;
     spec fn num_max() -> Self::Number;
@@ -1140,6 +1140,11 @@ pub trait GarnishData: Sized {
             forall|s: Self::Size| #![auto] Self::is_idx(<Self::DataFactory as GarnishDataFactory<Self::Size, Self::Number, Self::Char, Self::Byte, Self::Symbol, Self::Error, Self::SizeIterator, Self::NumberIterator>>::size_to_number_spec(s)),
             forall|a: Self::Number, b: Self::Number| #![auto] Self::is_idx(a) && Self::is_idx(b) ==> Self::num_cmp(a, b) == Some(nat_cmp(Self::nidx(a) as nat, Self::nidx(b) as nat)),
             forall|a: Self::Number, b: Self::Number| #![auto] Self::is_idx(a) && Self::is_idx(b) ==> Self::num_eq(a, b) == (Self::nidx(a) == Self::nidx(b)),
+            // the flat item sequence the data object's concatenation iterator yields is the one the walker visits (`walk`, written from the
+            // statement): proved for SimpleGarnishData in unit V3 (`collect_concatenation_indices.flat_items_in_order`), assumed for any other
+            forall|cells: Map<Self::Size, Cell<Self::Size, Self::Number, Self::Symbol, Self::Char, Self::Byte>>, addr: Self::Size, fuel: nat|
+                #![trigger walk(cells, seq![addr], false, fuel), Self::concat_flat(cells, addr)]
+                walk(cells, seq![addr], false, fuel) matches Some(flat) ==> Self::concat_flat(cells, addr) == flat,
             // Number constants / conversions as indices
             forall|c: Self::Number| #![auto] call_ensures(<Self::Number as TypeConstants>::zero, (), c) ==> c == Self::num_zero(),
             forall|c: Self::Number| #![auto] call_ensures(<Self::Number as TypeConstants>::one, (), c) ==> c == Self::num_one(),
